@@ -323,6 +323,72 @@ def r5_debug_tracking(ctx, F):
     ctx.floor("debug-tracking-cases", n_cases, 100)
 
 
+def r6_memory_history(ctx, F):
+    """the memory the step iterator reports for a clock value is the memory of that trace row: Memory::write / read are
+    interpreted for a scenario of accesses (concrete contexts, addresses and clocks, symbolic words; several accesses of one
+    address, several addresses, two contexts), then Memory::get_state_at(ctx, clk) is interpreted for every clock around the
+    accesses and must list, for each address of the context accessed before `clk`, the word of its latest access before `clk`"""
+    from .mirsym import Interp, Agg, Ptr, Poly, deref, Unanalysable, PanicReached
+    from . import procmodel
+    mem_get = F.fn(r"^miden_processor::chiplets::memory::Memory::get_state_at$")
+    f_default = [k for k in F.fns if k.endswith("chiplets::memory::Memory@Default::default")]
+    f_read, f_write = F.fn(r"^miden_processor::chiplets::memory::Memory::read$"), F.fn(r"^miden_processor::chiplets::memory::Memory::write$")
+    ctx_adt = F.adt(r"^miden_processor::system::ContextId$|^miden_processor::ContextId$")
+    ctx.inst(key="memory-history", nontrivial=True)
+    I = Interp(F)
+    procmodel.install_field(I)
+    mk_ctx = lambda v: Agg([v], "adt", ctx_adt["id"], ctx_adt["variants"][0]["name"])
+    word = lambda n: Agg([Poly.var("%s_%d" % (n, i)) for i in range(4)], "array")
+    # (kind, ctx, addr, clk, word): address 4 of context 0 is written three times and read in between
+    scenario = [("w", 0, 4, 3, "A"), ("r", 0, 4, 6, None), ("w", 0, 9, 7, "B"), ("w", 0, 4, 10, "C"), ("w", 5, 4, 12, "D"), ("r", 0, 9, 13, None),
+                ("w", 0, 4, 15, "E"), ("w", 5, 2, 16, "G"), ("w", 5, 4, 18, "H")]
+    try:
+        if len(f_default) != 1:
+            raise Unanalysable("Memory::default not found")
+        mem = I.call(f_default[0], [])
+        me = Ptr([mem], 0)
+        hist = {}           # (ctx, addr) -> [(clk, word repr)]
+        for kind, c_, a_, k_, w_ in scenario:
+            if kind == "w":
+                wv = word(w_)
+                I.call(f_write.id, [me, mk_ctx(c_), a_, k_, wv])
+                hist.setdefault((c_, a_), []).append((k_, [repr(x) for x in wv.items]))
+            else:
+                I.call(f_read.id, [me, mk_ctx(c_), a_, k_])
+                last = hist.get((c_, a_), [(0, ["0"] * 4)])[-1][1]
+                hist.setdefault((c_, a_), []).append((k_, last))
+        bad = None
+        n = 0
+        for c_ in (0, 5, 7):
+            for clk in range(0, 22):
+                got = deref(I.call(mem_get.id, [me, mk_ctx(c_), clk]))
+                items = [deref(x) for x in got.items]
+                got_map = {}
+                for it in items:
+                    a_, w_ = deref(it.items[0]), deref(it.items[1])
+                    got_map[a_ if isinstance(a_, int) else repr(a_)] = [repr(x) for x in w_.items]
+                want = {}
+                for (cc, aa), accs in hist.items():
+                    if cc != c_:
+                        continue
+                    before = [w for k, w in accs if k < clk]      # state at the beginning of cycle clk
+                    if before:
+                        want[aa] = before[-1]
+                n += 1
+                if got_map != want:
+                    bad = "for context %d at clk %d the reported memory is %s; the trace holds %s at that row" % (c_, clk, got_map, want)
+                    break
+            if bad:
+                break
+    except (Unanalysable, PanicReached) as e:
+        ctx.violation("UNANALYSABLE|memory-history", mem_get.loc(), str(e)[:300])
+        return
+    ctx.oblig(bad is None)
+    ctx.analysed("Memory::get_state_at interpreted at %d (context, clk) points of a %d-access scenario" % (n, len(scenario)))
+    if bad:
+        ctx.violation("memory-history", mem_get.loc(), "Memory::get_state_at: " + bad)
+
+
 def run(ctx, F):
     ctx.trusted += ["rustc MIR via mirfacts", "srcx (syn) for trait signatures", "mirsym for the iterator methods"]
     ctx.assumptions += ["equality of whole traces across runs is not decided; the rules exclude the listed sources of nondeterminism and state mutation"]
@@ -331,3 +397,4 @@ def run(ctx, F):
     ctx.run_rule("C14-R3", "no clock, RNG, thread, environment, filesystem or hash-ordered collection on the execute/trace path; random rows seeded by the program hash", r3_ambient, F)
     ctx.run_rule("C14-R5", "debug-mode instruction tracking (track_instruction / set_instruction_cycle_count, interpreted on small builder states for all bodies of <= 2 operations and <= 2 decorators) leaves the operations and every non-AsmOp decorator exactly as in release mode", r5_debug_tracking, F)
     ctx.run_rule("C14-R4", "VmStateIterator::next/back read ctx, fmp, stack and memory at the very clock value they report, for both previous directions; clk pushes the clock", r4_iterator, F)
+    ctx.run_rule("C14-R6", "the memory reported for a clock value is the memory of that trace row: Memory::get_state_at interpreted on a scenario with repeated accesses of one address, several addresses and two contexts lists, for every clock, the latest word accessed before that clock", r6_memory_history, F)
